@@ -137,7 +137,7 @@ Print Assumptions C01_every_entry_is_checked.
 Theorem C01_every_found_file_is_checked : forall (L : hashlib) decompress pgp w l path pol lm l' b log,
   assert_directory_verifies L decompress pgp w l path pol lm = Ok (l', b, log) ->
   exists ed, get_file_entry_dict L decompress pgp w l path None true = Ok (l', ed) /\
-    forall dp rel ents f, reach w ed (pjoin rootdir path) path dp rel -> p_scandir w dp = Ok ents ->
+    forall dp rel ents f, reach w ed (walk_top path) path dp rel -> p_scandir w dp = Ok ents ->
       In f (map fst (filter (fun x => negb (snd x)) ents)) -> visible (l_top l') rel f = true ->
       exists eo, presented_at L w (mk_vctx (l_top l') (l_dev l') pol lm) (pjoin dp f) (pjoin rel f) eo log /\
                  (eo = None \/ exists e dd, eo = Some e /\ In (rel, dd) ed /\ In (f, e) dd).
@@ -153,7 +153,7 @@ Theorem C01_silent_verification_means_match : forall (L : hashlib) decompress pg
   exists ed, get_file_entry_dict L decompress pgp w l path None true = Ok (l', ed) /\
     (forall dir dd n e, In (dir, dd) ed -> In (n, e) dd ->
        exists dp diff, names_object path dp (pjoin dir n) /\ verify_path L w dp (Some e) (l_dev l') lm = Ok (true, diff)) /\
-    (forall dp rel ents f, reach w ed (pjoin rootdir path) path dp rel -> p_scandir w dp = Ok ents ->
+    (forall dp rel ents f, reach w ed (walk_top path) path dp rel -> p_scandir w dp = Ok ents ->
        In f (map fst (filter (fun x => negb (snd x)) ents)) -> visible (l_top l') rel f = true ->
        exists eo diff, verify_path L w (pjoin dp f) eo (l_dev l') lm = Ok (true, diff) /\
          (eo = None \/ exists e dd, eo = Some e /\ In (rel, dd) ed /\ In (f, e) dd)).
@@ -198,7 +198,7 @@ Theorem C01_found_file_is_checked_against_its_entry : forall (L : hashlib) decom
   wf_world w -> nodup_world w -> key_ok path -> lrel l ->
   assert_directory_verifies L decompress pgp w l path pol lm = Ok (l', b, log) ->
   exists ed, get_file_entry_dict L decompress pgp w l path None true = Ok (l', ed) /\
-    forall dp rel ents f, reach w ed (pjoin rootdir path) path dp rel -> p_scandir w dp = Ok ents ->
+    forall dp rel ents f, reach w ed (walk_top path) path dp rel -> p_scandir w dp = Ok ents ->
       In f (map fst (filter (fun x => negb (snd x)) ents)) -> visible (l_top l') rel f = true ->
       presented_at L w (mk_vctx (l_top l') (l_dev l') pol lm) (pjoin dp f) (pjoin rel f) (lookup ed rel f) log.
 Proof. exact found_files_checked_exactly. Qed.
@@ -219,7 +219,7 @@ Example C01_whole_tree_example :
     new_loader (table_hashlib []) c01_dec c01_pgp c01_w [77;97;110;105;102;101;115;116] (mk_opts None false None [] PDefault None None false) false true = Ok l0 /\
     assert_directory_verifies (table_hashlib []) c01_dec c01_pgp c01_w l0 [] PolFalse None = Ok (l', false, [([98], [s_exists])]) /\
     get_file_entry_dict (table_hashlib []) c01_dec c01_pgp c01_w l0 [] None true = Ok (l', ed) /\
-    reach c01_w ed (pjoin rootdir []) [] (pjoin (pjoin rootdir []) [115]) (pjoin [] [115]).
+    reach c01_w ed (walk_top []) [] (pjoin (walk_top []) [115]) (pjoin [] [115]).
 Proof.
   do 3 eexists. split; [vm_compute; reflexivity|]. split; [vm_compute; reflexivity|]. split; [vm_compute; reflexivity|].
   eapply reach_down; [vm_compute; reflexivity|vm_compute; left; reflexivity|reflexivity| |apply reach_here].
